@@ -159,14 +159,18 @@ func worker(results chan<- result, files <-chan string, wg *sync.WaitGroup) {
 			// The file could not be opened (missing, dangling link, permissions...)
 			// report it rather than carrying on with a nil file
 			res.err = err
+			simhook.Yield("hash.worker.send", file)
 			results <- res
+			simhook.Yield("hash.worker.recv", "")
 			continue
 		}
 		info, err := f.Stat()
 		if err != nil {
 			f.Close()
 			res.err = err
+			simhook.Yield("hash.worker.send", file)
 			results <- res
+			simhook.Yield("hash.worker.recv", "")
 			continue
 		}
 		// Skip directories
